@@ -485,9 +485,14 @@ class Gen:
                 self.cur = [0, 0, 0, 0]
         else:
             idxs = sorted(r.sample([0, 1, 2, 3], r.choice([1, 1, 2, 3])))
+        # all four components zero: a staged black is black, not "nothing staged" (whatever default was saved)
+        black = r.random() < 0.07
+        if black:
+            idxs = [0, 1, 2, 3]
+            self.feat['colour:all-zero'] += 1
         parts = []
         for i in idxs:
-            v = self.component(i)
+            v = 0 if black else self.component(i)
             self.cur[i] = v
             parts.append('%s %s' % (REG_NAMES[self.mode][i], num_lit(v)))
         self.cid = None
